@@ -10,6 +10,8 @@ from sa.guards import GuardView, atom_of, names_in
 from sa.index import own_nodes
 from sa.report import Ctx
 
+from .common import generic_sweeps
+
 from .graph_common import neighbor_loops, node_derived_sets, node_universe_filtered
 from .sat_common import _enclosing_block
 
@@ -120,6 +122,7 @@ def run(ctx: Ctx):
     t = ast.unparse(cd.node)
     ctx.ob("C14-O4", "R5 PAIRING", cd, "the component map is built from the partition SCC returned for the same node list and callback", "scc_result = strongly_connected_components(node_list, neighbors)" in t and "components: list[list[S]] = scc_result.solution" in t and "node_to_component[node] = i" in t, "", node=cd.node)
     ctx.ob("C14-O4", "R5 PAIRING", cd, "condensed nodes are the frozen components, adjacency is keyed by them", "[frozenset(c) for c in components]" in t and "condensed_nodes[i]: [condensed_nodes[j] for j in condensed_edges[i]]" in t, "", node=cd.node)
+    generic_sweeps(ctx)
 
 
 # ---------------------------------------------------------------------------------------------
